@@ -11,7 +11,8 @@
 (*   x carrier kind x 0..MaxHops hops;                                     *)
 (* plus the status sweep: every status 400..599 as the own status of a     *)
 (* no-code and of a custom-code error; and listings whose backend yields    *)
-(* 1 or 2 items and THEN the error, with page sizes 1, 2 and the default.  *)
+(* 1 or 2 items and THEN the error, with page sizes 1, 2 and the default;   *)
+(* and size classes: messages of 1900..6000 bytes, details of 1..90 digests *)
 (* A behaviour is one case: Init picks it, each step is one hop.           *)
 (*                                                                         *)
 (* Two modes, both swept inside one TLC run (Init chooses):                *)
@@ -68,7 +69,19 @@ Domain == UNION {{Wrapped(x, ws[1], ws[2]) : x \in Leaves(c, FinalStatus(c, ws[1
 SweepAll == 400..599
 SweepDomain == {Http(s, <<Plain(<<B("b1")>>)>>) : s \in SweepStatuses}
                \cup {Http(s, <<New("CUSTOM_CODE", <<B("b1")>>, "none")>>) : s \in SweepStatuses}
-FullDomain == Domain \cup SweepDomain
+\* Size classes: base texts of 1900..6000 bytes ("L<n>") and details listing 1..90 digests ("D<k>")
+\* - error bodies below and above net/http's 2048-byte write buffer (above it the response is
+\* chunked) and up to just below the client's 8 KiB read limit.  For the model a long text is a base
+\* token and a long detail a detail like any other: every law holds unchanged.  (A long message
+\* is never combined with a long detail, so the body stays below the limit; beyond the limit the
+\* client documents that the code is lost - not modelled, not generated.)
+SizeMsgs == {"L1900", "L2100", "L3000", "L6000"}
+SizeDetails == {"D1", "D25", "D30", "D90"}
+SizeLeaves == {New(c, <<B(m)>>, "none") : c \in {"MANIFEST_BLOB_UNKNOWN", "MANIFEST_INVALID", "CUSTOM_CODE"}, m \in SizeMsgs}
+              \cup {New(c, <<B("b1")>>, d) : c \in {"MANIFEST_BLOB_UNKNOWN", "MANIFEST_INVALID", "CUSTOM_CODE"}, d \in SizeDetails}
+              \cup {Plain(<<B(m)>>) : m \in SizeMsgs}
+SizeDomain == SizeLeaves \cup {Fmt(<<B("b2")>>, <<x>>) : x \in SizeLeaves} \cup {Http(418, <<x>>) : x \in SizeLeaves}
+FullDomain == Domain \cup SweepDomain \cup SizeDomain
 
 \* Listings whose backend iterator yields nitems items and THEN the error (kind "LIST"), with
 \* client page sizes below, at and above nitems (0: the default of 1000), for a few trees.
@@ -136,5 +149,5 @@ ItemsLaw == LET d(j) == Delivered(nitems, EffPage(page), j) IN
             /\ (k >= 1 /\ EffPage(page) >= nitems) => d(k) = 0
 
 \* ------------------------------------------------------------------- export
-Emit == (Export /\ k = 0) => PrintT(<<"MBT", ToJson([err |-> t0, kind |-> kind, sweep |-> t0 \in SweepDomain, nitems |-> nitems, page |-> page])>>)
+Emit == (Export /\ k = 0) => PrintT(<<"MBT", ToJson([err |-> t0, kind |-> kind, sweep |-> t0 \in SweepDomain, size |-> t0 \in SizeDomain, nitems |-> nitems, page |-> page])>>)
 =============================================================================
